@@ -1,43 +1,31 @@
 (* The runtime-level statements of C02 for the runtime over ANY future event
-   set that satisfies six facts (H_new .. H_fetch below): an invariant QI, the
-   set's own clock q_clock and its pending multiset q_pend such that
-     - a new set is empty and its clock is the start time,
-     - add before the set's clock is rejected and changes nothing,
-     - add at/after it is accepted, keeps the clock, adds exactly that entry,
-     - len counts the pending entries,
-     - peek_time = None only when nothing is pending,
-     - when peek_time = Some t, fetch_next (whatever the hint) returns an entry
-       with exactly that time, t is not before the set's clock, the clock becomes
-       t and exactly that entry leaves the pending multiset.
-   Runtime/HeapSetProps.v shows the BinaryHeap backend satisfies them for every
-   oracle. *)
+   set [E : evset] (Runtime/EvSet.v: the operations plus six facts).
+   Runtime/Instances.v builds the three event sets: the specification, the
+   calendar queue (every n, t >= 1) and the BinaryHeap backend (every oracle). *)
 From Coq Require Import List Arith NArith PArith ZArith.Znat Lia Bool Sorting.Sorted Permutation ZifyBool.
-From DesVerif Require Import Common.Fuel Common.Codec Runtime.Limit Runtime.Model Runtime.Queue Runtime.Inv Runtime.Generic.
+From DesVerif Require Import Common.Fuel Common.Codec Runtime.Limit Runtime.Model Runtime.Queue Runtime.Inv Runtime.Generic Runtime.EvSet.
 Import ListNotations.
 Open Scope N_scope.
 
 Section GenericProps.
-Variables Q Hint : Type.
-Variable q_new : N -> Q.
-Variable q_add : Q -> N -> N -> Q * bool.
-Variable q_peek : Q -> option N.
-Variable q_fetch : Hint -> Q -> Q * option (N * N).
-Variable q_len : Q -> N.
+Variable EV : evset.
+Local Notation Q := (eQ EV).
+Local Notation Hint := (eHint EV).
+Local Notation q_new := (e_new EV).
+Local Notation q_add := (e_add EV).
+Local Notation q_peek := (e_peek EV).
+Local Notation q_fetch := (e_fetch EV).
+Local Notation q_len := (e_len EV).
+Local Notation QI := (eI EV).
+Local Notation q_clock := (e_clock EV).
+Local Notation q_pend := (e_pend EV).
+Local Notation H_new := (e_new_ok EV).
+Local Notation H_add_lt := (e_add_lt EV).
+Local Notation H_add_ge := (e_add_ge EV).
+Local Notation H_len := (e_len_ok EV).
+Local Notation H_peek_none := (e_peek_none EV).
+Local Notation H_fetch := (e_fetch_ok EV).
 Variable orc : N -> Hint.
-
-Variable QI : Q -> Prop.
-Variable q_clock : Q -> N.
-Variable q_pend : Q -> list (N * N).
-
-Hypothesis H_new : forall S, QI (q_new S) /\ q_clock (q_new S) = S /\ q_pend (q_new S) = [].
-Hypothesis H_add_lt : forall q t l, QI q -> t < q_clock q -> q_add q t l = (q, false).
-Hypothesis H_add_ge : forall q t l, QI q -> q_clock q <= t ->
-  exists q', q_add q t l = (q', true) /\ QI q' /\ q_clock q' = q_clock q /\ Permutation (q_pend q') ((t, l) :: q_pend q).
-Hypothesis H_len : forall q, QI q -> q_len q = N.of_nat (length (q_pend q)).
-Hypothesis H_peek_none : forall q, QI q -> q_peek q = None -> q_pend q = [].
-Hypothesis H_fetch : forall q t h, QI q -> q_peek q = Some t ->
-  exists q' l, q_fetch h q = (q', Some (t, l)) /\ QI q' /\ q_clock q' = t /\ q_clock q <= t /\
-               Permutation (q_pend q) ((t, l) :: q_pend q').
 
 Local Notation rt := (grt Q).
 Local Notation gadd := (gadd_event Q q_add).
